@@ -15,8 +15,8 @@ from vf.util import closure_has_zero, graph_of, tally_ops, tally_prog
 
 PROPERTY = "C08"
 WORKERS = {"quick": 16, "thorough": 16}
-CASES = {"quick": 700, "thorough": 40000}
-TIME = {"quick": 55, "thorough": 1200}
+CASES = {"quick": 700, "thorough": 4200}
+TIME = {"quick": 55, "thorough": 240}
 CASE_TIMEOUT = 120
 TECHNIQUE = "runtime monitoring: logical step counter inside the rewrite hooks (cap cuts a non-terminating loop and yields the firing sequence), idempotence by name, raise-differential between the un-optimized and the optimized graph under the instrumented scheduler"
 RULE = (
